@@ -30,7 +30,8 @@ RULE = ('base: all (file, result time, exposed table, printed row, column) cells
         'column) x 6 width-preserving forms (negative taking the separating blank, negative dropping the leading zero, '
         'zero, -1dd and +1dd exponent without E, widest = negative all-nines with -1dd exponent) x 4 scopes (all rows all '
         'times, all rows at times > 0, first row at time 0, last row at last time), every cell of every table at every '
-        'time re-compared.  A case is one compared cell (base), one (subset, time, table) comparison (skip) or one variant '
+        'time re-compared.  Every opened file is read forwards and then backwards; the unperturbed file also with every '
+        'time reached from index 0 by its negative index / last().  A case is one compared cell (base), one (subset, time, table) comparison (skip) or one variant '
         'file (perturbed); non-trivial = it involves at least one printed number (base/skip) or at least one replaced '
         'cell (perturbed); distinct = distinct (file, time, table, row, column) / (file, subset, time, table) / (file, '
         'table, column, form, scope)')
@@ -50,7 +51,8 @@ ASSUMPTIONS = ['the 37 shipped listings are the files under tests/listing/*/*/ t
                'the integer value column of ECO2M (\'I\') is compared but not perturbed',
                'a replacement that the number grammar itself cannot split unambiguously from its neighbours is not made '
                '(counted as ambiguous_cells)']
-BOUNDS = {'quick': {'files': 'base and skip: all shipped listings; perturbed: the shipped listings smaller than 300 kB',
+BOUNDS = {'quick': {'files': 'base and skip: all shipped listings; perturbed: the shipped listings smaller than 300 kB, and of the '
+                             'larger ones the tables whose rows print differing numbers of values',
                     'base': 'all cells, all times', 'skip': 'all non-empty subsets',
                     'perturbed': 'all tables x real columns x 6 forms x scopes {all rows at all times, last row at last time}'},
           'thorough': {'files': 'all shipped listings', 'base': 'all cells, all times', 'skip': 'all non-empty subsets',
@@ -60,6 +62,11 @@ TECHNIQUE = ('bounded exhaustive enumeration (every cell; every skip subset; eve
 LEVEL_TEXT = ('Every cell of every exposed table at every result time of every shipped listing is compared with an '
               'independently tokenized value; every subset of skipped tables and every (column, printed form, scope) rewrite '
               'of the files is opened with the real reader and compared completely; nothing is sampled.')
+READING_ORDERS = ('base: after opening, index = 1..n-1, then prev() down to the first time, then every time reached from index 0 by '
+                  'its negative index and the last time by last() (index 0 re-read in between); skip and perturbed: after '
+                  'opening, index = 1..n-1, then prev() down to the first time; all tables are compared at every arrival')
+BOUNDS['quick']['reading_orders'] = READING_ORDERS
+BOUNDS['thorough']['reading_orders'] = READING_ORDERS
 LEVEL_NOTE = ('Trusted: ref/listtok.py (structure and tokens) and ref/fortnum.py (values). Only the shipped files and their '
               'width-preserving value rewrites are claimed; the quick tier perturbs only the files below 300 kB and leaves out the '
               'scopes "times > 0" and "first row at time 0".')
@@ -285,9 +292,26 @@ def msgclass(e):
 
 # ------------------------------------------------------------------------------------------ base case
 
-def visit(ctx, path, skip, on_table, on_open=None):
-    """Opens path with the library (guarded) and calls on_table(ti, name, libtable) for every exposed
-    table at every result time.  -> None or (clause, text)."""
+def route(n, orders):
+    """The reading order of one opened listing: [(how, action, argument, result time reached)].
+    forward: the state after opening, then index = 1 .. n-1;  backward: prev() from the last time down to
+    the first;  negative: every time reached directly from index 0 through its negative index, and the last
+    time through last() - after going back to index 0 each time ('home')."""
+    steps = [('forward', 'open', None, 0)] + [('forward', 'index', ti, ti) for ti in range(1, n)]
+    if n > 1 and 'backward' in orders:
+        steps += [('backward', 'prev', None, ti) for ti in range(n - 2, -1, -1)]
+    if n > 1 and 'negative' in orders:
+        for ti in range(n):
+            steps.append(('home', 'index', 0, 0))
+            steps.append(('negative', 'index', ti - n, ti))
+        steps.append(('home', 'index', 0, 0))
+        steps.append(('last', 'last', None, n - 1))
+    return steps
+
+
+def visit(ctx, path, skip, on_table, on_open=None, orders=('backward',)):
+    """Opens path with the library (guarded), follows route(...) and calls on_table(ti, name, libtable, how)
+    for every exposed table at every result time reached.  -> None or (clause, text)."""
     try:
         with core.timelimit(CASE_SECONDS):
             stage = 'open'
@@ -305,20 +329,25 @@ def visit(ctx, path, skip, on_table, on_open=None):
                         return r
                 if lst.num_fulltimes != ctx.nsets:
                     return ('result-times', 'reader finds %d result times, %d are printed' % (lst.num_fulltimes, ctx.nsets))
-                for ti in range(ctx.nsets):
-                    stage = 'index=%d' % ti
-                    if ti > 0:
+                for how, action, arg, ti in route(ctx.nsets, orders):
+                    stage = '%s %s%s -> time %d' % (how, action, '' if arg is None else ' = %d' % arg, ti)
+                    if action != 'open':
                         try:
-                            set_index(lst, ti)
+                            with contextlib.redirect_stdout(io.StringIO()):
+                                if action == 'index':
+                                    lst.index = arg
+                                elif action == 'prev':
+                                    lst.prev()
+                                else:
+                                    lst.last()
                         except (ReadBudgetExceeded, core.CaseTimeout):
                             raise
                         except Exception as e:
-                            return ('step-raises:' + msgclass(e),
-                                    'index = %d raised %s: %s' % (ti, type(e).__name__, str(e)[:200]))
+                            return ('step-raises:' + msgclass(e), '%s raised %s: %s' % (stage, type(e).__name__, str(e)[:200]))
                     for name in list(lst._tablenames):
-                        r = on_table(ti, name, lst._table[name])
+                        r = on_table(ti, name, lst._table[name], how)
                         if r:
-                            return r
+                            return (r[0] + ('' if how == 'forward' else '@' + how), '%s: %s' % (stage, r[1]))
             finally:
                 close_listing(lst)
     except ReadBudgetExceeded as e:
@@ -330,12 +359,13 @@ def visit(ctx, path, skip, on_table, on_open=None):
     return None
 
 
-def check_base(ctx, rec, with_addressing=True):
+def check_base(ctx, rec, with_addressing=True, orders=('backward', 'negative')):
     """-> (violations [(sig, what, case)], library snapshot for the skip checks)."""
     import numpy as np
     viol = []
     snap = {}
     info = {'tables': None}
+    revisit_reported = set()
 
     def sig(clause, table):
         return 'C05|base|%s|%s|%s' % (clause, ctx.sim, table)
@@ -343,9 +373,22 @@ def check_base(ctx, rec, with_addressing=True):
     def on_open(lst):
         info['tables'] = list(lst._tablenames)
 
-    def on_table(ti, name, lt):
-        snap[(ti, name)] = (list(lt.row_name), list(lt.column_name), lt._data.copy())
+    def on_table(ti, name, lt, how='forward'):
         exp = ctx.exp[ti].get(name)
+        if how != 'forward':
+            # the same result time reached another way: the same numbers are printed there
+            if exp is None or exp.width > lt.num_columns:
+                return None
+            r = compare_table(exp, exp.array(lt.num_columns), lt)
+            if rec is not None:
+                rec.bulk(lt._data.size, [core.h64((ctx.rel, ti, name, how))], outcome='cells-recompared-' + how)
+                rec.count('cells_recompared_other_reading_order', lt._data.size)
+            if r and (name, how) not in revisit_reported:
+                revisit_reported.add((name, how))
+                viol.append((sig(r[0] + '@' + how, name), '%s time %d table %s reached by %s: %s'
+                             % (ctx.rel, ti, name, how, r[1]), {'kind': 'base', 'file': ctx.rel}))
+            return None
+        snap[(ti, name)] = (list(lt.row_name), list(lt.column_name), lt._data.copy())
         if exp is None:
             if rec is not None:
                 rec.count('exposed_table_not_printed_at_time')
@@ -378,7 +421,7 @@ def check_base(ctx, rec, with_addressing=True):
                          {'kind': 'base', 'file': ctx.rel}))
         return None
 
-    r = visit(ctx, ctx.path, None, on_table, on_open)
+    r = visit(ctx, ctx.path, None, on_table, on_open, orders=orders)
     if r:
         viol.append(('C05|base|%s|%s' % (r[0], ctx.sim), '%s: %s' % (ctx.rel, r[1]), {'kind': 'base', 'file': ctx.rel}))
     if rec is not None:
@@ -445,13 +488,13 @@ def check_skip(ctx, snap, names, S, rec):
     case = {'kind': 'skip', 'file': ctx.rel, 'skip': list(S)}
     seen = set()
 
-    def on_table(ti, name, lt):
+    def on_table(ti, name, lt, how='forward'):
         seen.add((ti, name))
         if name in S:
             return None
         b = snap.get((ti, name))
         if rec is not None:
-            rec.case((ctx.rel, S, ti, name), nontrivial=True, outcome='skip-compared')
+            rec.case((ctx.rel, S, ti, name, how), nontrivial=True, outcome='skip-compared')
         if b is None:
             return ('extra-table', 'table %s is exposed at time %d only when %s is skipped' % (name, ti, ','.join(S)))
         if lt.row_name != b[0]:
@@ -627,7 +670,7 @@ def check_variant(ctx, table, col, form, scope, rec):
     case = {'kind': 'pert', 'file': ctx.rel, 'table': table, 'col': col, 'form': form, 'scope': scope}
     patched = {}
 
-    def on_table(ti, name, lt):
+    def on_table(ti, name, lt, how='forward'):
         exp = ctx.exp[ti].get(name)
         if exp is None:
             return None
@@ -668,7 +711,7 @@ def check_variant(ctx, table, col, form, scope, rec):
         what = ('%s, column %d of table %s rewritten as %s (scope %s, %d cells, e.g. line %s): %s'
                 % (ctx.rel, col, table, form, scope, len(changed), example(ctx, lines), r[1]))
         viol.append((sigv, what, case))
-        return viol, r[0].split(':')[0]
+        return viol, r[0].split(':')[0].split('@')[0]
     return viol, 'agrees'
 
 
@@ -705,14 +748,17 @@ def units(tier):
     us = []
     for rel, size in listing_files():
         us.append(('base', rel))
-        if tier == 'quick' and size >= QUICK_SIZE:
-            continue
         sets = listtok.scan(listtok.read_lines(os.path.join(listing_root(), rel)))
-        ncol = {}
+        ncol, widths = {}, {}
         for rs in sets:
             for t in rs.tables:
                 ncol[t.name] = max([ncol.get(t.name, 0)] + [len(r.toks) for r in t.rows])
+                widths.setdefault(t.name, set()).update(len(r.toks) for r in t.rows)
         for name in ncol:
+            # quick: the small files completely; of the large files only the tables whose rows do not all print
+            # the same number of values (the tables in which 'blank trailing cells read as zero' is at stake)
+            if tier == 'quick' and size >= QUICK_SIZE and len(widths[name]) < 2:
+                continue
             for col in range(ncol[name]):
                 us.append(('pert', rel, name, col))
     return us
@@ -746,7 +792,7 @@ def run_unit(unit, tier, rec):
         return
     table, col = unit[2], unit[3]
     # the unperturbed file must agree first: a base disagreement is reported by the base unit, not 24 times here
-    bviol, snap, names = check_base(ctx, None, with_addressing=False)
+    bviol, snap, names = check_base(ctx, None, with_addressing=False, orders=())
     if bviol or names is None or table not in names:
         rec.count('perturbation_not_run_base_disagrees_or_table_not_exposed', 1)
         rec.case(('pert-skipped', rel, table, col), nontrivial=False, outcome='not-run')
